@@ -28,17 +28,19 @@ def plan(tier):
   budget does not allow the full cross product at the largest size; what is
   left out there is the part in which the order cannot matter (version given
   explicitly: nothing is queued) or which is covered at all smaller sizes."""
-  ALL = schedules.ENTRIES
+  ALL = schedules.ENTRIES + ("clones",)
   if tier == "quick":
     return [
-        (0, 3, product(VERSIONS, DIALECTS, (1,), ALL)),
+        (0, 3, product(VERSIONS, DIALECTS, (1,), ALL) +
+               product((None,), ("standard",), (1,), ("carry",))),
         (4, 4, product(VERSIONS, ("standard",), (1,), ("list",)) +
                product((None,), ("standard",), (1,), ("inc", "objs")) +
                product((None,), ("rgfa",), (1,), ("list",))),
     ]
   return [
       (0, 4, product(VERSIONS, DIALECTS, (1,), ALL) +
-             product(VERSIONS, DIALECTS, (2, 3), ("list",))),
+             product(VERSIONS, DIALECTS, (2, 3), ("list",)) +
+             product((None,), ("standard",), (0, 1, 3), ("carry",))),
       (5, 5, product((None,), ("standard",), (1,), ("list",))),
   ]
 
@@ -109,10 +111,51 @@ def version_trace_problem(versions, param):
   return None
 
 
+def judge_carry(b, lines, exp, cfg):
+  """Entry `carry`: refused lines are dropped by the caller.  Whatever was
+  refused, what the Gfa holds in the end is a document of the version the
+  Gfa reports: a decided version never changes, and the written non-virtual
+  lines parse again to that version (not refused because of the version)."""
+  version, dialect, vlevel, entry = cfg
+  out = []
+  if b.err is not None or b.g is None:
+    return out           # foreign exception / timeout: C07, other entries
+  p = version_trace_problem(b.versions, version)
+  if p is not None:
+    out.append(("version-changed", "decided-version-changed",
+                "a decided version is kept", p))
+  g = b.g
+  try:
+    v = g.version
+    texts = [observe.safe_str(l) for l in g.lines if not observe.is_virtual(l)]
+  except Exception as e:
+    return out
+  if v is None or not texts:
+    return out
+  try:
+    g2 = gfapy.Gfa(list(texts), vlevel=vlevel, dialect=dialect)
+    v2 = g2.version
+    if v2 != v and any(t.split("\t")[0] not in ("H", "#") for t in texts):
+      out.append(("holds-other-version", "reparse:" + str(v2),
+                  "what the Gfa holds is a {} document".format(v),
+                  "parsed afresh: {}".format(v2)))
+  except gfapy.VersionError as e:
+    out.append(("holds-other-version", "reparse:VersionError",
+                "what the Gfa holds is a {} document".format(v),
+                "parsed afresh: VersionError: " + str(e).split("\n")[0][:80]))
+  except gfapy.Error:
+    pass
+  except Exception:
+    pass
+  return out
+
+
 def judge_build(b, lines, exp, cfg):
   """Violations of one build against the reference expectation.
   Returns list of (clause, what, expected, observed)."""
   version, dialect, vlevel, entry = cfg
+  if entry == "carry":
+    return judge_carry(b, lines, exp, cfg)
   out = []
   oc = b.outcome
   must = exp["must"]
@@ -199,7 +242,9 @@ def run_config(kinds, cfg, scratch, res, found):
     if rv.queue_exercised([kinds[i] for i in order], version):
       res["nontrivial"].add(h([kinds, order]))
     probs = judge_build(b, ol, exp, cfg)
-    if first is None:
+    if entry == "carry":
+      pass      # which lines are refused depends on the order: no comparison
+    elif first is None:
       first = (oc, ol)
     elif oc != first[0]:
       probs.append(("outcome-depends-on-order",
@@ -345,7 +390,7 @@ def slice_cases():
 def cfg_rank(cfg):
   version, dialect, vlevel, entry = cfg
   return (DIALECTS.index(dialect), VERSIONS.index(version), vlevel,
-          schedules.ENTRIES.index(entry))
+          (schedules.ENTRIES + ("clones", "carry")).index(entry))
 
 
 def replay(w, ctx):
